@@ -755,6 +755,16 @@ def check_prod(item, tier, seed=0):
             r.count('states')
             r.count('pairs_product')
             exp = ref_join(h1, rows1, h2, rows2)
+            if (i + 2 * j + seed) % 5 == 0 and rows1:
+                # marginalising P by the NAME of one of its top-level variables first (the documented `P['x']` form) must leave P
+                # itself as it was: the product below is still the join of the original rows
+                try:
+                    P[h1[0].split('.')[0]]
+                    detail = dict(detail, P_was_marginalised_by_name_first=h1[0].split('.')[0])
+                except BaseException as e:  # noqa
+                    if isinstance(e, (KeyboardInterrupt, SystemExit)):
+                        raise
+                    r.count('marginalise_by_name_raised_unjudged')
             try:
                 J = P & Q
             except BaseException as e:  # noqa
@@ -763,7 +773,13 @@ def check_prod(item, tier, seed=0):
                 r.violation('product:raised', dict(detail, error=repr(e)[:200]), item)
                 continue
             r.count('transitions')
-            ok = compare(r, item, 'product', exp, J, detail)
+            try:
+                ok = compare(r, item, 'product', exp, J, detail)
+            except TypeError as e:
+                # the rows of the join carry something that is not a variable assignment at all
+                keys = sorted({repr(k_) for ev_ in J.support if isinstance(ev_, dict) for k_ in ev_})
+                r.violation('product:rows_are_not_the_joined_assignments', dict(detail, row_keys=keys[:8], error=repr(e)[:120]), item)
+                continue
             if shared:
                 r.nontriv(('prod', h1, h2, alph1, alph2, i, j))
                 r.count('pairs_sharing_a_variable')
